@@ -237,9 +237,12 @@ func (r *Request) SetQueryString(query string) *Request {
 // SetFileReader set up a multipart form with a reader to upload file.
 func (r *Request) SetFileReader(paramName, filename string, reader io.Reader) *Request {
 	used := false
+	_, seekable := reader.(io.Seeker)
+	_, osFile := reader.(*os.File) // closed after the first upload
 	r.SetFileUpload(FileUpload{
-		ParamName: paramName,
-		FileName:  filename,
+		ParamName:    paramName,
+		FileName:     filename,
+		unreplayable: !seekable || osFile,
 		GetFileContent: func() (io.ReadCloser, error) {
 			if used { // asked again (retry attempt): rewind if possible, never upload the drained reader
 				s, ok := reader.(io.Seeker)
@@ -645,6 +648,13 @@ func (r *Request) Do(ctx ...context.Context) *Response {
 	}
 	if r.retryOption != nil && r.retryOption.MaxRetries != 0 && r.unReplayableBody != nil { // retryable request should not have unreplayable Body
 		return r.newErrorResponse(errRetryableWithUnReplayableBody)
+	}
+	if r.retryOption != nil && r.retryOption.MaxRetries != 0 && r.isMultiPart {
+		for _, f := range r.uploadFiles { // a file that can be uploaded only once is an unreplayable body too
+			if f.unreplayable {
+				return r.newErrorResponse(errRetryableWithUnReplayableBody)
+			}
+		}
 	}
 	resp, _ := r.do()
 	return resp
